@@ -551,7 +551,7 @@ def _getters_tabulate(ctx) -> bool | None:
     helpers = {"is_leap": calendar.isleap, "is_long_year": lambda y: _dt.date(y, 12, 28).isocalendar()[1] == 53,
                "days_in_year": lambda y: 366 if calendar.isleap(y) else 365, "week_day": lambda y, mo, d: _dt.date(y, mo, d).isoweekday()}
     glob = {**minieval.module_consts(m), "calendar": Stub(isleap=calendar.isleap, monthrange=calendar.monthrange, monthcalendar=calendar.monthcalendar),
-            "math": Stub(ceil=math.ceil, floor=math.floor), "WeekDay": ClassStub(_new=lambda v: {i: i for i in range(7)}[v], _isa=lambda v: isinstance(v, int), **vars(wallstub.WEEKDAY)), "pendulum": Stub(helpers=Stub(**helpers)),
+            "math": Stub(ceil=math.ceil, floor=math.floor), "WeekDay": wallstub.WEEKDAY, "pendulum": Stub(helpers=Stub(**helpers)),
             "Date": ClassStub(_new=_dt.date, _isa=lambda v: isinstance(v, (_dt.date, Obj))), "date": ClassStub(_new=_dt.date, _isa=lambda v: isinstance(v, (_dt.date, Obj)))}
     for st in m.tree.body:
         if isinstance(st, ast.ImportFrom) and st.module in ("pendulum.helpers", "pendulum._helpers"):
